@@ -112,6 +112,81 @@ theorem failed_load_links (e : Enforcer) (a : AdapterSt) (s : Store) (hb : e.aut
   unfold Enforcer.finishLoad
   simp [hb, Enforcer.buildRoleLinks]
 
+theorem addLink_maxLevel (rm : RoleMgr String) (a b d : String) : (rm.addLink a b d).maxLevel = rm.maxLevel := by
+  simp only [RoleMgr.addLink]; split <;> rfl
+
+theorem linkOp_insert_maxLevel (arity : Nat) (rm rm' : RoleMgr String) (rule : Rule)
+    (h : linkOp arity true rm rule = .ok rm') : rm'.maxLevel = rm.maxLevel := by
+  unfold linkOp at h
+  split at h
+  · cases h
+  · split at h
+    · simp only [if_true] at h; cases h; exact addLink_maxLevel _ _ _ _
+    · split at h
+      · simp only [if_true] at h; cases h; exact addLink_maxLevel _ _ _ _
+      · split at h
+        · cases h
+        · cases h; rfl
+
+theorem buildDef_go_maxLevel (d : PolDef) (rules : List Rule) (rm : RoleMgr String) :
+    (buildDef.go d rm rules).1.maxLevel = rm.maxLevel := by
+  induction rules generalizing rm with
+  | nil => rfl
+  | cons r rs ih =>
+    simp only [buildDef.go]
+    cases hl : linkOp d.arity true rm r with
+    | error k => rfl
+    | ok rm' => simp only []; rw [ih, linkOp_insert_maxLevel _ _ _ _ hl]
+
+theorem buildDef_maxLevel (rm : RoleMgr String) (d : PolDef) : (buildDef rm d).1.maxLevel = rm.maxLevel := by
+  unfold buildDef
+  split
+  · rfl
+  · exact buildDef_go_maxLevel d d.policy rm
+
+theorem buildRoleLinks_go_maxLevel (gs : List PolDef) (rm : RoleMgr String) :
+    (Casbin.buildRoleLinks.go rm gs).1.maxLevel = rm.maxLevel := by
+  induction gs generalizing rm with
+  | nil => rfl
+  | cons d ds ih =>
+    simp only [Casbin.buildRoleLinks.go]
+    have hd := buildDef_maxLevel rm d
+    cases hb : buildDef rm d with
+    | mk rm' r =>
+      rw [hb] at hd
+      cases r with
+      | none => simp only []; rw [ih]; exact hd
+      | some k => exact hd
+
+theorem buildRoleLinks_maxLevel (rm : RoleMgr String) (gs : List PolDef) :
+    (Casbin.buildRoleLinks rm gs).1.maxLevel = rm.maxLevel := by
+  unfold Casbin.buildRoleLinks
+  rw [buildRoleLinks_go_maxLevel]
+  rfl
+
+/-- **a load that fails in the role-link rebuild** (the adapter delivered every rule, `some ()`, but a delivered
+grouping rule cannot be linked): the previous rules are back, the error is reported, and the role graph is the
+one a rebuild of the previous rules produces — cleared first, so that nothing of the rejected policy survives
+(what the seeded changes C05-7 and C10-8 break) -/
+theorem failed_rebuild_restores (e : Enforcer) (a : AdapterSt) (s : Store) (hb : e.autoBuild = true) (k : ErrKind)
+    (hfail : (Casbin.buildRoleLinks e.rm s.g).2 = some k) :
+    (e.finishLoad e.store a s (some ())).1.store = e.store ∧
+    (e.finishLoad e.store a s (some ())).2 = .err k ∧
+    (e.finishLoad e.store a s (some ())).1.rm =
+      (Casbin.buildRoleLinks (Casbin.buildRoleLinks e.rm s.g).1 e.store.g).1 := by
+  unfold Enforcer.finishLoad
+  simp only [hb, if_true, Enforcer.buildRoleLinks, hfail]
+  simp
+
+/-- … and that graph does not depend on what the failed rebuild left behind: a rebuild starts from the cleared
+manager (same hierarchy limit) -/
+theorem failed_rebuild_links_clean (e : Enforcer) (s : Store) :
+    (Casbin.buildRoleLinks (Casbin.buildRoleLinks e.rm s.g).1 e.store.g) = Casbin.buildRoleLinks e.rm e.store.g := by
+  have hm : (Casbin.buildRoleLinks e.rm s.g).1.maxLevel = e.rm.maxLevel := buildRoleLinks_maxLevel e.rm s.g
+  have hc : (Casbin.buildRoleLinks e.rm s.g).1.clear = e.rm.clear := by simp [RoleMgr.clear, hm]
+  show Casbin.buildRoleLinks.go (Casbin.buildRoleLinks e.rm s.g).1.clear e.store.g = Casbin.buildRoleLinks.go e.rm.clear e.store.g
+  rw [hc]
+
 /-! ### atomic save -/
 
 theorem read_set_same (fs : Fs) (p : String) (c : Bytes) : (fs.set p c).read p = some c := by
